@@ -41,7 +41,7 @@ Ifaces    == SIfaces \cup RIfaces
 Nominals  == Structs \cup Resources \cup Ifaces \cup Enums \cup RAttachments \cup SAttachments
 Conf(n) == CASE n = "S" -> {"I1", "I3"} [] n = "S2" -> {"I2"} [] n = "S3" -> {"I4"} [] n = "R" -> {"RI"} [] n = "R3" -> {"RI3"}
              [] n = "I3" -> {"I1"} [] n = "I4" -> {"I3"} [] n = "RI2" -> {"RI"} [] n = "RI3" -> {"RI2"} [] OTHER -> {}
-Ents == {"E1", "E2"}
+Ents == {"E1", "E2", "E3"}
 EB == INSTANCE EntitlementsBase WITH E <- Ents
 
 \* ------------------------------------------------------------------- constructors
